@@ -158,7 +158,7 @@ type Engine struct {
 	knownTags    map[string]bool // assertion messages that are known findings: do not stop, do not count
 	knownHit     map[string]*Violation
 	timeNow      *Term
-	goQueue      []FuncV             // goroutines queued by vQueueGo: run when the harness goroutine blocks
+	goQueue      []FuncV // goroutines queued by vQueueGo: run when the harness goroutine blocks
 	inGoroutine  int
 	guards       map[*Cell]guardInfo // lockset discipline declared by vGuardedBy
 	harnessFn    map[*ssa.Function]bool
@@ -620,7 +620,7 @@ func (e *Engine) noteFork(b *ssa.BasicBlock) {
 	f := e.stack
 	f.visits[b]++
 	if f.visits[b] > e.unwind {
-		panic(pathEnd{kind: "unwind", msg: fmt.Sprintf("%s block %d visited >%d times with a symbolic branch", f.fn.String(), b.Index, e.unwind)})
+		e.unwindFail(fmt.Sprintf("%s block %d visited >%d times with a symbolic branch", f.fn.String(), b.Index, e.unwind))
 	}
 }
 
@@ -720,6 +720,16 @@ func (e *Engine) runQueued() bool {
 	}
 	q := e.goQueue
 	e.goQueue = nil
+	// the goroutines have their own (empty) list of held lock ranks; the parked harness
+	// goroutine gets its list back afterwards (harness/vlib_sync.go)
+	var ranks *Cell
+	var saved Value
+	if g, ok := e.pkg.Members["vHeldRanks"].(*ssa.Global); ok {
+		ranks = e.globalCell(g)
+		saved = e.load(ranks)
+		e.store(ranks, e.zero(ranks.typ))
+		defer func() { e.store(ranks, saved) }()
+	}
 	for _, fv := range q {
 		func() {
 			stack, depth := e.stack, e.depth
@@ -783,6 +793,19 @@ func (e *Engine) checkGuard(fr *Frame, p Ptr, write bool) {
 	}
 	_, m := e.query(e.ts.True, e.modelTermsOr())
 	e.reportViolation("unguarded", gi.name+" is "+how+" without its lock held (data race with any concurrent API call)", m)
+}
+
+// unwindFail: a loop ran past the unwinding bound or the path past its step budget. Normally
+// that is inconclusive (never success). Inside a must-not-block section, whose bound the
+// harness has chosen to be sufficient for every terminating run, it is reported as "the
+// call does not return"; the native replay must confirm it as a hang, otherwise the report
+// is an internal error (so a bound that was merely too small cannot become a violation).
+func (e *Engine) unwindFail(msg string) {
+	if e.noBlockMsg != "" && e.inGoroutine == 0 && e.noFork == 0 {
+		_, m := e.query(e.ts.True, e.modelTermsOr())
+		e.reportViolation("blocked", e.noBlockMsg, m)
+	}
+	panic(pathEnd{kind: "unwind", msg: msg})
 }
 
 // block ends the path at an operation that can never proceed in the sequential execution.
@@ -1067,7 +1090,7 @@ func (e *Engine) execFrom(fr *Frame, b *ssa.BasicBlock, start int) *ssa.BasicBlo
 	for _, ins := range b.Instrs[start:] {
 		e.steps++
 		if e.steps > e.maxSteps {
-			panic(pathEnd{kind: "unwind", msg: fmt.Sprintf("step budget %d exceeded", e.maxSteps)})
+			e.unwindFail(fmt.Sprintf("step budget %d exceeded", e.maxSteps))
 		}
 		switch x := ins.(type) {
 		case *ssa.Jump:
